@@ -82,4 +82,28 @@ def k1 (h : Helper) (c : Case) : Bool :=
   hooksPass c &&
     (if h.isMarshal then k1Shape c (marshalResult c.mbeh).2 else k1Shape c (unmarshalErr c.ubeh))
 
+/-! ## cases completed by their hooks
+
+The hooks are handed the case so that they can complete it. The case the helper has to judge is the literal
+case with, field by field, the last thing a *present* hook wrote into `Data`, `Value` and `Error`
+(`After` writes after `Before`; `After` does not write `Value`); a `Constraint` written by a hook is not part
+of it: the direction was decided before any hook ran. -/
+
+/-- the last write wins: `After`'s if it is present and wrote, else `Before`'s if it is present and wrote, else the literal -/
+def lastWrite {α : Type} (hasB hasA : Bool) (b a : Option α) (literal : α) : α :=
+  match (if hasA then a else Option.none) with
+  | some v => v
+  | Option.none =>
+    match (if hasB then b else Option.none) with
+    | some v => v
+    | Option.none => literal
+
+def XCase.completed (x : XCase) : Case :=
+  let hasB := x.base.before != .nil
+  let hasA := x.base.after != .nil
+  { x.base with
+    data := lastWrite hasB hasA x.before.data x.after.data x.base.data
+    value := lastWrite hasB false x.before.value Option.none x.base.value
+    pred := lastWrite hasB hasA x.before.pred x.after.pred x.base.pred }
+
 end U.TestKit
